@@ -30,7 +30,10 @@ DEDUCTIVE = [{"module": "rnapolis.tertiary", "sidecar": "contracts.geometry_lemm
              # atom_site items incl. both null markers) - hence to the same atoms
              {"module": "rnapolis.parser", "sidecar": "contracts.parser_c", "targets": ["parse_pdb@decode", "lemma:record_names", "lemma:decoded_snoc"]},
              {"module": "rnapolis.parser", "sidecar": "contracts.parser_cif_c", "targets": ["try_parse_int", "parse_cif@decode"],
-              "opts": {"z3_probe_ms": 400, "cvc5_probe_s": 6}}]
+              "opts": {"z3_probe_ms": 400, "cvc5_probe_s": 6}},
+             # the gap test behind the '?' placeholders of the derived secondary structure (find_gaps): decided by the O3'-P distance
+             # alone (contract of C15), a quantity the rigid-motion lemmas show invariant - a test on single coordinate differences fails it
+             {"module": "rnapolis.tertiary", "sidecar": "contracts.connectivity_c", "targets": ["Residue3D.is_connected", "Residue3D.find_atom"]}]
 TRUSTED = ["numpy", "scipy KD-tree", "mmcif reader", "CPython 3.12",
            "z3 5.1.0 / cvc5 1.0.3 (every lemma obligation is discharged by z3; ring identities by its polynomial normaliser)",
            "numpy.linalg.norm(v) is the non-negative real n with n*n == v.v (contracts/externals.py np_norm; used by inv_dist / inv_torsion only)",
@@ -84,6 +87,43 @@ def summary(structure, back=lambda k: k):
         "bpseq": s2d.bpseq, "dot": [l for l in s2d.dotBracket.splitlines() if not l.startswith(">")],
         "ext": [l for l in s2d.extendedDotBracket.splitlines() if ">strand" not in l],
     }
+
+
+def gap_summary(structure):
+    """the derived secondary structure with gap detection (find_gaps=True): BPSEQ with '?' placeholders, per-strand dot-bracket"""
+    from rnapolis.annotator import extract_secondary_structure
+    s2d, _ = extract_secondary_structure(structure, None, True, False)
+    return {"bpseq(find_gaps)": s2d.bpseq, "dot(find_gaps)": [l for l in s2d.dotBracket.splitlines() if not l.startswith(">")]}
+
+
+def with_open_junction(structure, rng):
+    """the structure with one backbone junction pulled open: everything behind a connected O3'-P junction is translated along the
+    junction so that the O3'-P distance is 2.9-3.6 A (clearly above the 2.4 A rule) and its residues are renumbered +1 (a numbered
+    gap); None when the structure has no such junction"""
+    import numpy as np
+    res = structure.residues
+    cands = [k for k in range(len(res) - 1) if res[k].chain == res[k + 1].chain and res[k].is_connected(res[k + 1])
+             and res[k].auth is not None and res[k + 1].auth is not None]
+    if not cands:
+        return None
+    k = rng.choice(cands)
+    o3 = next(a for a in res[k].atoms if a.name == "O3'")
+    p = next(a for a in res[k + 1].atoms if a.name == "P")
+    v = np.array([p.x - o3.x, p.y - o3.y, p.z - o3.z])
+    delta = v / np.linalg.norm(v) * rng.choice([2.9, 3.2, 3.6]) - v
+    behind = {id(r) for r in res[k + 1:] if r.chain == res[k].chain}
+    ids = {}
+    for r in res:
+        for a in r.atoms:
+            ids[id(a)] = id(r) in behind
+    from rnapolis.common import ResidueAuth, ResidueLabel
+    chain, number = res[k].auth.chain, res[k].auth.number
+
+    def ident(label, auth):
+        if auth is not None and auth.chain == chain and auth.number > number:
+            return (ResidueLabel(label.chain, label.number + 1, label.name) if label is not None else None), ResidueAuth(auth.chain, auth.number + 1, auth.icode, auth.name)
+        return label, auth
+    return G.rebuild(structure, atom_fn=lambda a: (a.x + delta[0], a.y + delta[1], a.z + delta[2]) if ids[id(a)] else (a.x, a.y, a.z), ident_fn=ident)
 
 
 def diff(a, b):
@@ -179,6 +219,17 @@ def bounded(tier, seed):
                         report(tag, "file-vs-memory", diff(summary(via_file(s, "cif")), summary(G.rebuild(s, atom_fn=lambda a_: (round(a_.x, 3), round(a_.y, 3), round(a_.z, 3))))))
                 except Exception as e:
                     report(tag, f"pdb-vs-cif{k}", f"raised {type(e).__name__}: {e}")
+        # gap detection (find_gaps=True) under rigid motion, on the structure as it is and with one junction pulled open to 2.9-3.6 A
+        try:
+            for what, sg in (("gaps", s), ("open-junction", with_open_junction(s, rng))):
+                if sg is None:
+                    continue
+                bg = gap_summary(sg)
+                for k in range(reps):
+                    ev += 1
+                    report(tag, f"{what}-rigid{k}", diff(bg, gap_summary(G.rigid(sg, rng, max_t=500.0, axis_perm=(k == 0)))))
+        except Exception as e:
+            report(tag, "gaps-rigid", f"raised {type(e).__name__}: {e}")
         ev += 1
         report(tag, "atom-order", diff(base, summary(G.rebuild(s, shuffle_rng=rng))))
         ev += 1
